@@ -1,6 +1,7 @@
 import Cppcms.C03.FinalLemmas
 import Cppcms.C03.CacheLemmas
 import Cppcms.C03.HeadersLemmas
+import Cppcms.C03.HttpHeadersLemmas
 /-!
 # C03 — the client receives exactly the bytes the application wrote, once and in order
 
@@ -510,6 +511,20 @@ theorem http_ready_of_clean_headers (a c : Bool) (H : Headers) (ok : HttpHeaders
       (H.lines (some (b Gen.statusName))) :=
   httpReady_of_headers a c H ok
 
+/-- … and those follow from conditions on the header *container* — names without colon or CR, values and status without CR,
+clean added lines that are neither Transfer-Encoding nor Content-Length, no Transfer-Encoding entry, a Content-Length entry (if
+any) in plain decimal: the case-insensitive uniqueness of the map (§5) is what makes the client see exactly one Content-Length. -/
+theorem http_headers_ok_of_clean_container (H : Headers) (h : HeadersClean H) : HttpHeadersOk H :=
+  HttpHeadersOk.of_clean H h
+
+/-- the field values a client sees under a name (other than `Status`): the value of the map entry for that name under any
+spelling, if there is one, then those of the added lines carrying the name -/
+theorem client_field_values (H : Headers) (ok : H.Ok) (hkeys : ∀ kv ∈ H.map, ∀ c ∈ kv.1, c ≠ 58) (s n : Bytes)
+    (hns : ieq n s = false) :
+    Spec.fieldValues (Spec.lower n) (H.lines (some s)) =
+      ((mapFind n H.map).map fun kv => kv.2.dropWhile Spec.isWs).toList ++ Spec.fieldValues (Spec.lower n) H.added :=
+  fieldValues_lines H ok hkeys s n hns
+
 /-- **client_sees_app_bytes.**  The same for any presentation `F` of the protocol with a round-trip theorem against
 the independent de-framer (`httpFraming`, `fcgiFraming`, `scgiFraming`): the client decodes exactly one head and
 exactly the bytes that left the buffer chain. -/
@@ -653,5 +668,20 @@ example : PageCache.fetch [] (pageKey (([.status 404] : List Op).foldl Run.step
 
 /-- raw modes: a complete header block satisfies the completeness hypothesis -/
 example : (rawNext {} [65, 58, 32, 98, 13, 10, 13, 10, 120, 121]).done = true := by decide
+
+/-- non-vacuity: the header set of `Props.exCase` (Content-Encoding, Content-Type, Status, a cookie) is clean -/
+example : HeadersClean exHeaders where
+  ok := by unfold Headers.Ok exHeaders; simp only [Sorted]; decide
+  keys := by decide
+  vals := by decide
+  added := by
+    intro l hl
+    simp only [exHeaders, List.mem_cons, List.not_mem_nil, or_false] at hl
+    subst hl; exact ⟨by decide, by decide⟩
+  addedTE := by decide
+  addedCL := by decide
+  noTE := by decide
+  cl := by intro kv h; have : mapFind sContentLengthName exHeaders.map = none := by decide
+           rw [this] at h; cases h
 
 end Cppcms.C03.Props
